@@ -234,6 +234,253 @@ func (c *classifier) classify() string {
 	}
 }
 
+// ---- census of writes to receiver fields after construction -----------------------------------------------
+
+type fieldWrite struct {
+	Type, Field, Method, Sync string
+}
+
+// how a write inside method fd is synchronised: "mutex" (the method starts by locking a mutex field of the receiver and
+// defers the unlock), "once" (inside a function literal passed to a sync.Once's Do), or "none"
+func syncOf(info *types.Info, fd *ast.FuncDecl, recv string, pos token.Pos) string {
+	if len(fd.Body.List) >= 2 {
+		if es, ok := fd.Body.List[0].(*ast.ExprStmt); ok {
+			if call, ok := es.X.(*ast.CallExpr); ok {
+				if sel, ok := call.Fun.(*ast.SelectorExpr); ok && sel.Sel.Name == "Lock" {
+					if inner, ok := sel.X.(*ast.SelectorExpr); ok {
+						if id, ok := inner.X.(*ast.Ident); ok && id.Name == recv {
+							if ds, ok := fd.Body.List[1].(*ast.DeferStmt); ok {
+								if s2, ok := ds.Call.Fun.(*ast.SelectorExpr); ok && s2.Sel.Name == "Unlock" {
+									return "mutex"
+								}
+							}
+						}
+					}
+				}
+			}
+		}
+	}
+	res := "none"
+	ast.Inspect(fd.Body, func(n ast.Node) bool {
+		call, ok := n.(*ast.CallExpr)
+		if !ok || len(call.Args) != 1 {
+			return true
+		}
+		sel, ok := call.Fun.(*ast.SelectorExpr)
+		if !ok || sel.Sel.Name != "Do" {
+			return true
+		}
+		if t := info.TypeOf(sel.X); t == nil || !strings.HasSuffix(t.String(), "sync.Once") {
+			return true
+		}
+		if fl, ok := call.Args[0].(*ast.FuncLit); ok && fl.Pos() <= pos && pos <= fl.End() {
+			res = "once"
+		}
+		return true
+	})
+	return res
+}
+
+func fieldWrites(pkgs []*packages.Package, repo string) []fieldWrite {
+	seen := map[fieldWrite]bool{}
+	for _, p := range pkgs {
+		for _, f := range p.Syntax {
+			rel, _ := filepath.Rel(repo, p.Fset.File(f.Pos()).Name())
+			if strings.HasPrefix(rel, "cmd/") || strings.HasPrefix(rel, "test/") || strings.HasPrefix(rel, "antlr/") || strings.HasPrefix(rel, "services/") {
+				continue
+			}
+			for _, d := range f.Decls {
+				fd, ok := d.(*ast.FuncDecl)
+				if !ok || fd.Body == nil || fd.Recv == nil || len(fd.Recv.List) == 0 || len(fd.Recv.List[0].Names) == 0 {
+					continue
+				}
+				if _, isPtr := fd.Recv.List[0].Type.(*ast.StarExpr); !isPtr {
+					continue
+				}
+				recv := fd.Recv.List[0].Names[0].Name
+				typ := p.PkgPath[strings.LastIndex(p.PkgPath, "/")+1:] + "." + strings.TrimPrefix(exprText(p.Fset, fd.Recv.List[0].Type), "*")
+				record := func(target ast.Expr, pos token.Pos) {
+					// recv.field, recv.field[...], recv.field.sub
+					for {
+						switch t := target.(type) {
+						case *ast.IndexExpr:
+							target = t.X
+							continue
+						case *ast.StarExpr:
+							target = t.X
+							continue
+						}
+						break
+					}
+					sel, ok := target.(*ast.SelectorExpr)
+					if !ok {
+						return
+					}
+					for {
+						inner, ok := sel.X.(*ast.SelectorExpr)
+						if !ok {
+							break
+						}
+						sel = inner
+					}
+					id, ok := sel.X.(*ast.Ident)
+					if !ok || id.Name != recv {
+						return
+					}
+					seen[fieldWrite{typ, sel.Sel.Name, fd.Name.Name, syncOf(p.TypesInfo, fd, recv, pos)}] = true
+				}
+				ast.Inspect(fd.Body, func(n ast.Node) bool {
+					switch st := n.(type) {
+					case *ast.AssignStmt:
+						for _, l := range st.Lhs {
+							record(l, st.Pos())
+						}
+					case *ast.IncDecStmt:
+						record(st.X, st.Pos())
+					case *ast.CallExpr:
+						if id, ok := st.Fun.(*ast.Ident); ok && id.Name == "delete" && len(st.Args) == 2 {
+							record(st.Args[0], st.Pos())
+						}
+					}
+					return true
+				})
+			}
+		}
+	}
+	var out []fieldWrite
+	for w := range seen {
+		out = append(out, w)
+	}
+	sort.Slice(out, func(i, j int) bool {
+		a, b := out[i], out[j]
+		if a.Type != b.Type {
+			return a.Type < b.Type
+		}
+		if a.Field != b.Field {
+			return a.Field < b.Field
+		}
+		return a.Method < b.Method
+	})
+	return out
+}
+
+// writes to package-level variables outside init functions: (variable, function)
+func globalWrites(pkgs []*packages.Package, repo string) [][2]string {
+	seen := map[[2]string]bool{}
+	for _, p := range pkgs {
+		for _, f := range p.Syntax {
+			rel, _ := filepath.Rel(repo, p.Fset.File(f.Pos()).Name())
+			if strings.HasPrefix(rel, "cmd/") || strings.HasPrefix(rel, "test/") || strings.HasPrefix(rel, "antlr/") || strings.HasPrefix(rel, "services/") {
+				continue
+			}
+			for _, d := range f.Decls {
+				fd, ok := d.(*ast.FuncDecl)
+				if !ok || fd.Body == nil || (fd.Name.Name == "init" && fd.Recv == nil) {
+					continue
+				}
+				fname := fd.Name.Name
+				if fd.Recv != nil && len(fd.Recv.List) > 0 {
+					fname = exprText(p.Fset, fd.Recv.List[0].Type) + "." + fname
+				}
+				record := func(target ast.Expr) {
+					for {
+						switch t := target.(type) {
+						case *ast.IndexExpr:
+							target = t.X
+							continue
+						case *ast.StarExpr:
+							target = t.X
+							continue
+						case *ast.SelectorExpr:
+							if _, isPkg := p.TypesInfo.Uses[identOf(t.X)].(*types.PkgName); isPkg {
+								break
+							}
+							target = t.X
+							continue
+						}
+						break
+					}
+					var id *ast.Ident
+					switch t := target.(type) {
+					case *ast.Ident:
+						id = t
+					case *ast.SelectorExpr:
+						id = t.Sel
+					}
+					if id == nil {
+						return
+					}
+					if v, ok := p.TypesInfo.Uses[id].(*types.Var); ok && v.Parent() == v.Pkg().Scope() {
+						pk := v.Pkg().Path()
+						seen[[2]string{pk[strings.LastIndex(pk, "/")+1:] + "." + v.Name(), fname}] = true
+					}
+				}
+				ast.Inspect(fd.Body, func(n ast.Node) bool {
+					switch st := n.(type) {
+					case *ast.AssignStmt:
+						if st.Tok != token.DEFINE {
+							for _, l := range st.Lhs {
+								record(l)
+							}
+						}
+					case *ast.IncDecStmt:
+						record(st.X)
+					case *ast.CallExpr:
+						if id, ok := st.Fun.(*ast.Ident); ok && id.Name == "delete" && len(st.Args) == 2 {
+							record(st.Args[0])
+						}
+					}
+					return true
+				})
+			}
+		}
+	}
+	var out [][2]string
+	for w := range seen {
+		out = append(out, w)
+	}
+	sort.Slice(out, func(i, j int) bool { return out[i][0]+"|"+out[i][1] < out[j][0]+"|"+out[j][1] })
+	return out
+}
+
+func identOf(e ast.Expr) *ast.Ident {
+	id, _ := e.(*ast.Ident)
+	return id
+}
+
+func emitWrites(ws []fieldWrite, globals [][2]string, out string) {
+	var b strings.Builder
+	b.WriteString("-- GENERATED by gfmaps; do not edit\nnamespace GoflowModel.Gen.FieldWrites\n\n/-- every write to a field of a pointer receiver: (type, field, method, synchronisation) -/\ndef writes : List (String × String × String × String) := [\n")
+	for i, w := range ws {
+		sep := ","
+		if i == len(ws)-1 {
+			sep = ""
+		}
+		fmt.Fprintf(&b, "  (%s, %s, %s, %s)%s\n", leanStr(w.Type), leanStr(w.Field), leanStr(w.Method), leanStr(w.Sync), sep)
+	}
+	b.WriteString("]\n\n/-- the types that have a write without synchronisation -/\ndef unsynchronisedTypes : List String := [")
+	var ts []string
+	last := ""
+	for _, w := range ws {
+		if w.Sync == "none" && w.Type != last {
+			ts = append(ts, leanStr(w.Type))
+			last = w.Type
+		}
+	}
+	b.WriteString(strings.Join(ts, ", "))
+	b.WriteString("]\n\n/-- writes to package-level variables outside `init`: (variable, function) -/\ndef globalWrites : List (String × String) := [")
+	var gs []string
+	for _, g := range globals {
+		gs = append(gs, "("+leanStr(g[0])+", "+leanStr(g[1])+")")
+	}
+	b.WriteString(strings.Join(gs, ", "))
+	b.WriteString("]\n\nend GoflowModel.Gen.FieldWrites\n")
+	old, err := os.ReadFile(out)
+	if err != nil || string(old) != b.String() {
+		os.WriteFile(out, []byte(b.String()), 0o644)
+	}
+}
+
 func main() {
 	repo := flag.String("repo", "/repo", "repository root")
 	out := flag.String("out", "/verif/lean/GoflowModel/Gen/MapRanges.lean", "output file")
@@ -317,5 +564,7 @@ func main() {
 			os.Exit(2)
 		}
 	}
-	fmt.Printf("gfmaps: %d map-range sites\n", len(sites))
+	ws := fieldWrites(pkgs, *repo)
+	emitWrites(ws, globalWrites(pkgs, *repo), filepath.Join(filepath.Dir(*out), "FieldWrites.lean"))
+	fmt.Printf("gfmaps: %d map-range sites, %d receiver field writes\n", len(sites), len(ws))
 }
